@@ -9,6 +9,8 @@ import (
 	"encoding/binary"
 	"fmt"
 	"io"
+	"os"
+	"path/filepath"
 	"math"
 	"strings"
 
@@ -664,7 +666,121 @@ func (c *Ctx) c07BigCase(n int, withNormals bool) {
 	}
 }
 
+// on-disk helpers: a HISTORY of Saves on one path (big, small, zero triangles, big again); after every Save the
+// file's bytes are what the model's WriteMesh gives (size law on disk) and Load agrees
+func (c *Ctx) c07FsHistory(dir string) {
+	p := filepath.Join(dir, "history.stl")
+	for step, nt := range []int{40 + c.Rng.Intn(40), 1 + c.Rng.Intn(5), 0, 7 + c.Rng.Intn(20), 2} {
+		nv := 9
+		idx := make([]int, 3*nt)
+		for i := range idx {
+			idx[i] = c.Rng.Intn(nv)
+		}
+		pos := make([]vector3.Float64, nv)
+		for i := range pos {
+			pos[i] = vector3.New(float64(step*10+i), float64(i)*0.5, -float64(i))
+		}
+		m := modeling.NewTriangleMesh(idx).SetFloat3Attribute(modeling.PositionAttribute, pos)
+		var onDisk []byte
+		ans := Guard(func() string {
+			if err := stl.Save(p, m); err != nil {
+				return "err"
+			}
+			bs, err := os.ReadFile(p)
+			if err != nil {
+				return "err"
+			}
+			onDisk = bs
+			b, ok := c07Parse(bs)
+			if !ok {
+				return "unparseable len=" + fmt.Sprint(len(bs))
+			}
+			return "ok " + c07Bin(b, true)
+		})
+		c.Emit("c07.writemesh", c07Mesh(m), ans)
+		c.Note("fs.save-step")
+		if onDisk == nil {
+			continue
+		}
+		c.Emit("c07.holds.size", fmt.Sprintf("%d %s", nt, hx(onDisk)), "true")
+		lans := Guard(func() string {
+			back, err := stl.Load(p)
+			if err != nil {
+				return "err"
+			}
+			return "ok " + c07Mesh(*back)
+		})
+		c.Emit("c07.readmesh", hx(onDisk), lans)
+	}
+}
+
+// a reader that hides Seek (and everything else) of the reader it wraps
+type c07Plain struct{ r io.Reader }
+
+func (p c07Plain) Read(b []byte) (int, error) { return p.r.Read(b) }
+
+// the STL payload does not start at offset 0 of its reader: a consumed preamble, and two files back to back —
+// through seekable (bytes.Reader, os.File) and non-seekable (bytes.Buffer, plain wrapper) readers
+func (c *Ctx) c07Positioned(dir string, first, second []byte) {
+	pre := make([]byte, 1+c.Rng.Intn(200))
+	c.Rng.Read(pre)
+	all := append(append(append([]byte(nil), pre...), first...), second...)
+	fp := filepath.Join(dir, "positioned.bin")
+	kinds := []struct {
+		name string
+		mk   func() (io.Reader, func())
+	}{
+		{"bytes.Reader", func() (io.Reader, func()) { return bytes.NewReader(all), func() {} }},
+		{"bytes.Buffer", func() (io.Reader, func()) { return bytes.NewBuffer(append([]byte(nil), all...)), func() {} }},
+		{"plain(bytes.Reader)", func() (io.Reader, func()) { return c07Plain{bytes.NewReader(all)}, func() {} }},
+		{"os.File", func() (io.Reader, func()) {
+			if err := os.WriteFile(fp, all, 0o644); err != nil {
+				return bytes.NewReader(all), func() {}
+			}
+			f, err := os.Open(fp)
+			if err != nil {
+				return bytes.NewReader(all), func() {}
+			}
+			return f, func() { f.Close() }
+		}},
+	}
+	for _, k := range kinds {
+		for pass := 0; pass < 2; pass++ {
+			r, done := k.mk()
+			if _, err := io.ReadFull(r, make([]byte, len(pre))); err != nil {
+				done()
+				continue
+			}
+			if pass == 0 {
+				c.Emit("c07.read", hx(first), c07ReadVia(r))
+				c.Emit("c07.read", hx(second), c07ReadVia(r)) // the second file follows immediately
+			} else {
+				a, _ := c07ReadMeshVia(r)
+				c.Emit("c07.readmesh", hx(first), a)
+				b, _ := c07ReadMeshVia(r)
+				c.Emit("c07.readmesh", hx(second), b)
+			}
+			done()
+		}
+		c.Note("positioned." + k.name)
+	}
+}
+
 func runC07(c *Ctx) {
+	if dir, err := os.MkdirTemp("", "verif-c07-"); err == nil {
+		nh := 2 + c.N/100
+		if nh > 20 {
+			nh = 20
+		}
+		for k := 0; k < nh; k++ {
+			c.c07FsHistory(dir)
+			var a, b bytes.Buffer
+			stl.Write(&a, c.c07Binary())
+			stl.Write(&b, c.c07Binary())
+			c.c07Positioned(dir, a.Bytes(), b.Bytes())
+		}
+		os.RemoveAll(dir)
+	}
 	for _, txt := range c07HeaderTexts { // every header text once, NUL- and blank-padded
 		for pad := 0; pad < 2; pad++ {
 			var b stl.Binary
